@@ -57,7 +57,9 @@ ASSUMPTIONS = [
 
 NOT_VERIFIED = [
     'GP_UCB_PE / DEFAULT / ALGORITHM_UNSPECIFIED (VizierGPUCBPEBandit) and GAUSSIAN_PROCESS_BANDIT (VizierGPBandit): JAX / equinox numerics, out of reach',
-    'BOCS, HARMONICA: global-RNG numerics over binary spaces, not under contract',
+    'BOCS: global-RNG numerics over binary spaces, not under contract',
+    'HARMONICA: the regression / acquisition numerics are not under contract; only "every literal value suggest() emits is a feasible value of every '
+    'space the constructor accepts" is (C03.HarmonicaDesigner.suggest.values_in_domain), its random warm-up goes through RandomDesigner',
     'NSGA2 (numpy_populations), CMA_ES, EAGLE_STRATEGY: internals not under contract; only their last step, TrialToArrayConverter.to_parameters -> '
     'DefaultModelInputConverter.to_parameter_values, is a producer proved here',
     'seed_with_default wrapper: only get_default_parameters (the value it suggests) is under contract',
@@ -274,7 +276,8 @@ def grid_post(ptype, scale):
                 # the grid's converter has the default float32 dtype: the guard sees the bounds after the cast (a positive bound below the
                 # float32 underflow threshold casts to 0 and is refused too)
                 lo32, hi32 = C15.cast_of('float32', dom.lo), C15.cast_of('float32', dom.hi)
-                return [('C03.grid_points.refuses_only_nonpositive_log_bounds.' + T, z3.Or(xreal.r(lo32) <= 0, xreal.r(hi32) <= 0))]
+                return [('C03.grid_points.refuses_only_nonpositive_log_bounds.' + T,
+                         z3.Or(xreal.r(dom.lo) <= 0, xreal.r(dom.hi) <= 0, xreal.r(lo32) <= 0, xreal.r(hi32) <= 0))]
             return [('C03.grid_points.no_raise.' + T, z3.BoolVal(False))]
         res = p.value
         out = [('C03.grid_points.no_raise.' + T, z3.BoolVal(True))]
@@ -762,7 +765,7 @@ INVENTORY = (['C03.%s.%s.only_producers' % (c, m) for c, m in (('RandomDesigner'
              + ['C03.sample_uniform.in_range', 'C03.sample_integer.in_range', 'C03.sample_integer.integral', 'C03.sample_categorical.in_domain',
                 'C03.sample_discrete.in_domain', 'C03.get_closest_element.is_element', 'C03._generate_discrete_point.in_vocabulary',
                 'C03.policy_factory.accepts_only_registered', 'C03.policy_factory.table', 'C03.RandomDesigner.suggest.samples_decodable',
-                'C03.grid_points.only_producer.DOUBLE']
+                ]
              + ['C03.to_parameter_values.decode_is_last.%s' % t for t in TYPES])
 
 F18 = 'C03.get_default_parameters.in_domain.DOUBLE.configured_default'
@@ -799,6 +802,12 @@ def families(tier):
     for dotted, c in ((RDM, 'RandomDesigner'), (QRM, 'QuasiRandomDesigner'), (GRID, 'GridSearchDesigner')):
         fams.append((c + '.__init__', guard_entry(dotted, c), guard_post(c), replay_guard(dotted, c), None))
     fams.append(('RandomDesigner.suggest', rd_suggest_entry, rd_suggest_post, None, None))
+    try:
+        lits, other = harmonica_literals()
+    except (FF.Unanalysable, KeyError) as e:
+        lits, other = [], ['unanalysable: %s' % (e,)]
+    for ext in EXTERNALS:
+        fams.append(('HarmonicaDesigner.__init__+suggest', harmonica_entry(ext), harmonica_post(ext, lits, other), replay_harmonica, None))
     # the decode producer shared with C15 (same entries and postconditions, recorded under C03 names)
     for t in TYPES:
         for sc in (C15.SCALES if t == 'DOUBLE' else (None,)):
@@ -906,3 +915,78 @@ def main(tier):
                             % (res['spaces'], 'the pool of'), 'held', detail={k: res[k] for k in ('spaces', 'runs', 'n_refusals', 'refusal_examples')})
     C15.dedupe_violations(chk)
     return chk.finish(min_obligations=60, inventory=INVENTORY)
+
+
+# =========================================================================================== I. HarmonicaDesigner: emitted literals are feasible values
+# HARMONICA's numerics (regression over the Boolean cube, global np.random) are outside the stated subset.  What IS plain Python and decided
+# here: suggest() returns either RandomDesigner suggestions (a frame/producer proved above) or a ParameterDict filled with string LITERALS; the
+# constructor guard must therefore refuse every space in which one of those literals is not a feasible value of some parameter.
+HARM = 'vizier._src.algorithms.designers.harmonica'
+HARM_PRODUCERS = {'RandomDesigner().suggest': 'RandomDesigner.suggest'}
+EXTERNALS = ('INTERNAL', 'BOOLEAN', 'INTEGER', 'FLOAT')
+
+
+def harmonica_literals():
+    """(literals emitted by suggest, other non-producer sources) from the backward slice of the real suggest()"""
+    sl = FF.Slicer(mod(HARM).classes['HarmonicaDesigner'], HARM_PRODUCERS)
+    leaves = sl.origins_of_returns('suggest')
+    lits, other = [], []
+    for l in sorted(leaves):
+        if l.startswith('producer:'):
+            continue
+        if l.startswith('const:'):
+            try:
+                v = ast.literal_eval(l[len('const:'):])
+            except (ValueError, SyntaxError):
+                other.append(l)
+                continue
+            lits.append(v)
+        else:
+            other.append(l)
+    return lits, other
+
+
+def harmonica_entry(external):
+    def entry(it):
+        run = it.run
+        run.stage = 'init'
+        run.dom = K.Dom(run, 'CATEGORICAL')
+        nm = run.fresh('pc_name', Str)
+        run.assume(nm != pm.str_lit(''))
+        pc = K.make_pc(it, run.dom, name=nm, external=external)
+        if external == 'BOOLEAN':
+            # the BOOLEAN external type is set by add_bool_param only, whose postcondition (C16.add_bool_param.*) is a categorical
+            # parameter over exactly ['False', 'True']
+            fv = run.dom.fv
+            run.assume(z3.And(fv.n == 2, fv.arr[0] == pm.str_lit('False'), fv.arr[1] == pm.str_lit('True')))
+        space = make_space(it, [pc])
+        kc = PCM + ':SearchSpace.is_conditional'
+        E.PROPERTIES[kc] = lambda it_, obj: False
+        info = Obj('MetricInformation', {'name': 'objective', 'goal': None})
+        problem = Obj('ProblemStatement', {'search_space': space,
+                                           'metric_information': Obj('MetricsConfig', {'item': Builtin('item', lambda it_, args, kw: info)})})
+        try:
+            return it.call(mod(HARM).classes['HarmonicaDesigner'], [problem], {'harmonica_q': M.Opaque('harmonica_q')})
+        finally:
+            E.PROPERTIES.pop(kc, None)
+    return entry
+
+
+def harmonica_post(external, literals, other):
+    name = 'C03.HarmonicaDesigner.suggest.values_in_domain'
+
+    def post(p):
+        if p.kind == 'raise':
+            # a refusal (ValueError) is always allowed by the property
+            return [('C03.HarmonicaDesigner.__init__.refuses_with_ValueError', z3.BoolVal(exc_class(p) == 'ValueError'))]
+        if other:
+            return [(name, z3.BoolVal(False))]
+        dom = p.run.dom
+        return [(name, z3.And(*[SK.member(dom, v) for v in literals]) if literals else z3.BoolVal(True))]
+    return post
+
+
+def replay_harmonica(name, p, m):
+    run = p.run
+    fv = K.model_list(m, run.dom.fv)
+    return run_replay({'kind': 'harmonica', 'obligation': name, 'feasible': [str(x) for x in fv]})
